@@ -199,6 +199,10 @@ func c43PassRel(rnd *rand.Rand, p []byte, rel string) []byte {
 		q = append(q, 0)
 	case "trunc":
 		q = q[:len(q)-1]
+	case "mid":
+		q[len(q)/2] ^= 0x01
+	case "tail":
+		q[len(q)-1] ^= 0x01
 	case "bit":
 		q[0] ^= 0x20 // the other case of an ASCII letter
 	default:
